@@ -419,8 +419,10 @@ def check_property(prop, tier, seed):
         violations=violations,
     )
     ev["coverage"]["known_findings_reported"] = [l for l in lines if l.startswith("KNOWN-FINDING")]
-    os.makedirs(os.path.join(ROOT, "evidence"), exist_ok=True)
-    json.dump(ev, open(os.path.join(ROOT, "evidence", prop + ".json"), "w"), indent=1)
+    # evidence is about /repo itself; runs against another tree (VERIF_REPO, used to try seeded changes) write elsewhere
+    evdir = os.path.join(ROOT, "evidence") if os.path.realpath(REPO) == "/repo" else os.path.join(BUILD, "evidence_other_tree")
+    os.makedirs(evdir, exist_ok=True)
+    json.dump(ev, open(os.path.join(evdir, prop + ".json"), "w"), indent=1)
     for l in lines:
         print(l, flush=True)
     print("%s %s: %d obligations, %d discharged, %d impl evaluations, %d cases, %.0f s, violations=%d" %
